@@ -537,6 +537,21 @@ def run_filecache(eng, p):
         @staticmethod
         def wraps(f):
             return lambda g: g
+    class SecFloat:
+        """st_mtime: nanoseconds / 1e9 as a float; int() gives whole
+        seconds"""
+
+        def __init__(self, ns):
+            self.ns = ns
+
+        def __int__(self):
+            return self.ns // 1000000000
+
+        def __eq__(self, o):
+            return isinstance(o, SecFloat) and bool(self.ns == o.ns)
+
+        def __hash__(self):
+            return 0
     state = {"mtime": eng.int("mtime1"), "size": eng.int("size1"),
              "content": eng.int("content1")}
 
@@ -548,6 +563,11 @@ def run_filecache(eng, p):
         @property
         def st_size(self):
             return state["size"]
+
+        @property
+        def st_mtime(self):
+            # float seconds (coarser view of the same time stamp)
+            return SecFloat(state["mtime"])
 
     class P:
         def __init__(self, s):
@@ -573,7 +593,9 @@ def run_filecache(eng, p):
 
     class pathlib_shim:
         Path = P
-    ns = shadow(UT, functools=functools_shim, pathlib=pathlib_shim)
+    ns = shadow(UT, functools=functools_shim, pathlib=pathlib_shim,
+                int=lambda x: x.__int__() if isinstance(x, SecFloat)
+                else int(x))
     deco = ns["file_monitoring_lru_cache"](maxsize=100)
 
     def hashit(path, arg=0):
@@ -889,6 +911,14 @@ def concrete_filecache():
         if h2 != hashlib.md5(b"b" * 101).hexdigest() or h1 == h2:
             fails.append("hashfile returned a stale hash after the file "
                          "changed")
+        # same size, modification time later by a fraction of a second
+        st = os.stat(pth)
+        open(pth, "wb").write(b"c" * 101)
+        os.utime(pth, ns=(st.st_atime_ns, st.st_mtime_ns + 1000))
+        h3 = hashfile(pth)
+        if h3 != hashlib.md5(b"c" * 101).hexdigest():
+            fails.append("hashfile returned a stale hash after a same-size "
+                         "rewrite within the same second")
     return fails
 
 
